@@ -206,7 +206,15 @@ def _shift_affine(k):
 def guard_of_call(res, i):
     """The last comparison of the remainders head with a shifted threshold decided before event i: (relation, shift, base)."""
     found = None
+    is_rem = lambda rem: sym.contains(rem, lambda y: isinstance(y, tuple) and y and ((y[0] in ('in', 'loop', 'post') and any(e == ('f', 'remainders') for e in y[-1] if isinstance(e, tuple))) or (y[0] == 'loop')))
     for t, v, _ in res.preds[:rules.preds_before(res, i)]:
+        # the same threshold spelled as a shift test: `remainders >> k == 0`  <=>  remainders < 1 << k
+        if t[0] == 'bin' and t[1] in ('Eq', 'Ne') and v in (0, 1):
+            for x, z in ((t[2], t[3]), (t[3], t[2])):
+                if ((z[0] == 'k' and z[1] == 'zero') or z == ('int', 0)) and x[0] == 'bin' and x[1] == 'Shr' and is_rem(x[2]):
+                    below = (t[1] == 'Eq') == bool(v)
+                    found = ('<' if below else '>=', _shift_affine(x[3]), 'one')
+            continue
         if not (t[0] == 'bin' and t[1] in ('Lt', 'Le') and v in (0, 1)):
             continue
         for rem, thr, rem_left in ((t[2], t[3], True), (t[3], t[2], False)):
